@@ -590,7 +590,11 @@ func fillMeaning(v interface{}) string {
 
 func runOpts(c *hx.Ctx, g *gen) {
 	o := &optGen{g: g, texts: map[string]string{}}
-	opt := o.options()
+	runOptsObj(c, o, o.options())
+}
+
+// runOptsObj: one options object through the real codec, against the model.
+func runOptsObj(c *hx.Ctx, o *optGen, opt *query.ProcessorOptions) {
 	order, in := canonOpts(opt, o.texts, true)
 	var parts []string
 	for _, f := range order {
